@@ -794,4 +794,29 @@ theorem appendCols_rows (dflt : α) (ts : List (List (List α))) (L : Nat)
       · show (List.zipWith (· ++ ·) t (appendCols (u :: rest))).length = L
         rw [List.length_zipWith, ← hl, Nat.min_self, hL t (by simp)]
 
+/-! #### descending sort through the string reversal -/
+
+theorem lexLe_single_str (a b : List Nat) (h : lexLe [.str a] [.str b] = true) : natLexLe a b = true := by
+  simp only [lexLe] at h
+  by_cases e : SKey.str a = SKey.str b
+  · injection e with e; subst e; exact natLexLe_refl a
+  · simpa [e, SKey.le] using h
+
+/-- a reverse sort on one string column is a descending sort whenever no key is a proper prefix
+of another (and all code points are < 256) -/
+theorem sorted_reverse_str_descending' {α : Type} (dflt : α) (strOf : List α → List Nat) (cols : List (List α))
+    (hc : ∀ r ∈ rowsOf dflt cols, ∀ c ∈ strOf r, c < 256)
+    (hp : ∀ r ∈ rowsOf dflt cols, ∀ s ∈ rowsOf dflt cols, ¬ ProperPrefix (strOf r) (strOf s)) :
+    (rowsOf dflt (sortedCols dflt lexLe (fun r => [SKey.str (reverseStr (strOf r))]) cols)).Pairwise
+      (fun r s => natLexLe (strOf s) (strOf r) = true) := by
+  obtain ⟨hperm, hsorted⟩ :=
+    sortedCols_perm_sorted dflt lexLe lexLe_trans lexLe_total (fun r => [SKey.str (reverseStr (strOf r))]) cols
+  unfold TableRows.SortedBy at hsorted
+  refine hsorted.imp_of_mem ?_
+  intro r s hr hs h
+  have hr' := (hperm.mem_iff).1 hr
+  have hs' := (hperm.mem_iff).1 hs
+  have := lexLe_single_str _ _ h
+  rwa [reverseStr_antitone' (strOf r) (strOf s) (hc r hr') (hc s hs') (hp r hr' s hs') (hp s hs' r hr')] at this
+
 end CogentModel.TableOps
